@@ -38,6 +38,15 @@ def corpus(rng, n_extra):
     return vals
 
 
+def object_values():
+    """values of other standard-library types a caller can supply (implementation-side oracle only: the model's universe is None/bool/int/float/str)"""
+    import datetime
+    from decimal import Decimal
+    from fractions import Fraction
+    return [("obj", v) for v in (Fraction(1, 3), Fraction(7, 1), Decimal("1.5"), Decimal("-0E-7"), Decimal("NaN"), Decimal("Infinity"), Decimal("sNaN"), complex(1, 2), complex(0, 0),
+                                 [1, 2], (1,), {"a": 1}, {1, }, b"x' OR 1=1 --", bytearray(b"ab"), datetime.date(2024, 1, 15), datetime.datetime(2024, 1, 15, 10, 30), datetime.timedelta(days=2), range(3), ..., 1j)]
+
+
 # ------------------------------------------------------------------ model side
 def coq_val(kind, v):
     if kind == "none":
@@ -319,7 +328,7 @@ def run(c):
                   "sqlglot 27.12 tokenizer/parser and DuckDB 1.3.2 as oracles for 'one literal' and 'round-trips as data' on the implementation's output",
                   "modelled, not verified: Model/SqlLex.v (string-literal lexer, numeric_literal) is hand-written; ParameterSet.interpolate, the Jinja switch and the "
                   "relative-date pass are exercised end to end only"]
-    c.assumptions += ["values are None/bool/int/float/str (other Python objects are outside the universe)", "non-ASCII values are outside the model's isalnum oracle (unquoted type); they are still checked on the implementation"]
+    c.assumptions += ["the MODEL's values are None/bool/int/float/str; values of other standard-library types (Fraction, Decimal, complex, containers, bytes, dates) are checked on the implementation only; objects whose own __str__/__bool__ is adversarial code are outside the universe", "non-ASCII values are outside the model's isalnum oracle (unquoted type); they are still checked on the implementation"]
     gen_ok = True
     try:
         lib.write_if_changed(os.path.join(lib.COQ, "Gen", "Params_gen.v"), gen_params.generate(lib.REPO))
@@ -357,7 +366,7 @@ def run(c):
     # (b) property oracle on the implementation's formatted values
     n_lit, raised = 0, 0
     for ty in TYPES:
-        for kind, v in vals:
+        for kind, v in vals + object_values():
             r = impl_format(ty, kind, v)
             n_lit += 1
             if r == "X":
@@ -388,7 +397,8 @@ def replay(path):
     r = body["replay"]
     print(json.dumps(r, indent=1)[:2000])
     if r.get("kind") == "format":
-        v = eval(r["value"], {"nan": float("nan"), "inf": float("inf")})
+        import datetime, decimal, fractions
+        v = eval(r["value"], {"nan": float("nan"), "inf": float("inf"), "datetime": datetime, "Decimal": decimal.Decimal, "Fraction": fractions.Fraction, "Ellipsis": ...})
         t = impl_format(r["type"], r["value_kind"], v)
         print("now:", t)
         return 1 if t != "X" and literal_check(r["type"], r["value_kind"], v, t[1:]) else 0
